@@ -1,0 +1,29 @@
+//! Verification hooks and shims. Compiled only with `--cfg circ_verif`.
+//!
+//! `hook(site, a, b)` calls a process-global callback if one is installed (otherwise it is a
+//! no-op). Sites below 1000 are *yield sites* placed immediately before an access to a shared
+//! word; sites from 1000 are *observations* placed after an access or at an event.
+
+use core::sync::atomic::{AtomicUsize, Ordering};
+
+static HOOK: AtomicUsize = AtomicUsize::new(0);
+
+/// Installs the global hook callback.
+pub fn set_hook(f: Option<fn(u32, usize, usize)>) {
+    HOOK.store(f.map_or(0, |f| f as usize), Ordering::SeqCst);
+}
+
+/// Calls the installed callback, if any.
+#[inline]
+pub fn hook(site: u32, a: usize, b: usize) {
+    let f = HOOK.load(Ordering::Relaxed);
+    if f != 0 {
+        let f: fn(u32, usize, usize) = unsafe { core::mem::transmute(f) };
+        f(site, a, b);
+    }
+}
+
+pub use crate::ebr_impl::verif_shim as ebr;
+pub use crate::utils::verif_shim as rc;
+pub use crate::strong::verif_shim_strong as strong;
+pub use crate::weak::verif_shim_weak as weak;
